@@ -22,8 +22,8 @@ from . import c06
 S5 = {
     "nodes": {
         "doc": {"content": "block+"},
-        "p": {"content": "text*", "group": "block"},
-        "bq": {"content": "block+", "group": "block"},
+        "p": {"content": "text*", "group": "block", "attrs": {"align": {"default": None}}},      # fillers / wrappers with an
+        "bq": {"content": "block+", "group": "block", "attrs": {"cite": {"default": None}}},     # attribute defaulting to None
         "ul": {"content": "li+", "group": "block"},
         "li": {"content": "p block*"},
         "fig": {"content": "cap figimg", "group": "block"},
@@ -232,7 +232,15 @@ def run(tier: str, seed: int, t0: float) -> int:
         if spec is not None:
             fam.append((f"rand{k}", spec))
     for name, spec in fam:
-        js, exprs, evs = schema_jobs(name, spec, rng, stats)
+        try:
+            js, exprs, evs = schema_jobs(name, spec, rng, stats)
+        except SyntaxError as ex:
+            # every schema of the family is legal (each required position has a generatable filler; the random ones
+            # were built and filtered on the code under test itself, so they cannot fail here): a refusal at schema
+            # construction means the generatability test behind fill_before / find_wrapping misjudges a type
+            out.append(Violation("LegalSchemaRefused", "Schema (check_for_dead_ends / has_required_attrs)",
+                                 f"schema {name}: {str(ex)[:200]}", {"schema": name, "spec": schemas._strip(spec)}, {"exc": "SyntaxError"}))
+            continue
         b = trace.Batch(js)
         for e in evs:
             b.add(e)
